@@ -36,7 +36,12 @@ RULE = (
     "(-L+d/2), anyfloat (min in [-1e3,1e3], d in [1e-4,1e2]). A case is "
     "NON-TRIVIAL iff for at least one axis the naive numpy.arange(min, "
     "min+N*d, d) has a number of points different from N (class 'miscount'; "
-    "computed by the harness with numpy, not with aurel). roundtrip: "
+    "computed by the harness with numpy, not with aurel; the share of such "
+    "cases is classes['miscount']/evaluations, about 25 % of the grids, "
+    "11-13 % per axis). consumers uses the same generator with the long axis "
+    "<= 28 points. When the axis arrays have the wrong length the derived-"
+    "shape oracles of that case are skipped (class 'derived-skipped': same "
+    "root cause) and the case is reported once as 'count'. roundtrip: "
     "non-trivial iff the drawn points contain a z-axis/origin/negative-x "
     "half-line point and a generic point. trim: non-trivial iff every length "
     "exceeds 4*mask_len (something is left after cutoffmask2). excision: "
@@ -69,7 +74,8 @@ ASSUMPTIONS = [
     "the touched cells = the windows written in the source (half-widths "
     "mask_len+1 resp. 2*mask_len+1, buffer b = 1), lower bound = the cells "
     "whose once (twice) applied centred stencil contains the singular cell "
-    "(no buffer), both clipped to the grid",
+    "(no buffer), both clipped to the grid; when the window is not cut by "
+    "the low edge of the grid the NaN pattern must equal the upper bound",
     "consumers run on Minkowski defaults with the sphere centre at the box "
     "centre (the default centre (0,0,0) need not lie inside a drawn box)",
 ]
@@ -235,7 +241,7 @@ def check_c2s(x, y, z, r, th, ph, note, tag):
     rho0 = np.hypot(x, y)
     r0 = np.hypot(rho0, z)
     with np.errstate(all="ignore"):
-        bad = ~(np.abs(r - r0) <= 4 * EPS * r0)
+        bad = ~(np.abs(r - r0) <= 8 * EPS * r0)
         if bad.any():
             i = np.argmax(bad)
             note.fail(f"{tag}:r", _pt(x, y, z, i, got=np.ravel(r)[i],
@@ -345,7 +351,8 @@ def test_axes(case, note):
         k = min(len(arr), n)
         err = np.abs(arr[:k] - ex[:k])
         tol = axis_tol(mn, d, k)
-        if (err > tol).any():
+        loc_ok = not (err > tol).any()
+        if not loc_ok:
             i = int(np.argmax(err - tol))
             note.fail("location", dict(
                 axis=a, N=n, min=mn, d=d, i=i, got=float(arr[i]),
@@ -361,16 +368,17 @@ def test_axes(case, note):
         if amax != arr[-1]:
             note.fail("max-attr", dict(axis=a, got=float(amax),
                                        last=float(arr[-1])))
-        elif len(arr) == n and not (err > tol).any() and \
-                abs(amax - ex[-1]) > tol[-1]:
+        elif len(arr) == n and loc_ok and abs(amax - ex[-1]) > tol[-1]:
             note.fail("max-value", dict(axis=a, N=n, min=mn, d=d,
                                         got=float(amax), want=float(ex[-1])))
         ic = getattr(fd, f"i{a}center")
         ok = isinstance(ic, (int, np.integer)) and 0 <= ic < len(arr)
         if ok:
             ok = abs(arr[ic]) == np.min(np.abs(arr))
-            if len(arr) == n:
-                ok = ok and abs(ex[ic]) <= np.min(np.abs(ex)) + tol[ic]
+            if len(arr) == n and loc_ok:
+                # same statement on the exact grid (ties / near ties within
+                # the location tolerance may resolve either way)
+                ok = ok and abs(ex[ic]) <= np.min(np.abs(ex)) + 2 * tol.max()
         if not ok:
             note.fail("center-index", dict(axis=a, got=repr(ic)))
     if not consistent:
@@ -729,6 +737,12 @@ def test_excision(case, note):
                 kept_contaminated_cells=int(len(cells)),
                 expected_at_least=int(lo.sum()), nan_cells=int(nan.sum()),
                 singular_cell_kept=bool(not nan[tuple(c)])))
+        elif where != "low-wrap" and (up & ~nan).any():
+            # window not cut by the low edge: the NaN pattern must be exactly
+            # the window written in the source (buffer cell included)
+            note.fail(name + ":window-incomplete", dict(
+                center=c, shape=shape, mask_len=m, where=where,
+                missing=int((up & ~nan).sum())))
 
 
 # ---------------------------------------------------------------------------
